@@ -534,7 +534,13 @@ def _do_extract(raw, i, unitfile, repo_root, out, log, meta, twin=False):
             else:
                 item.insert_lines(lc, block)
         elif dname == "replace":
-            (a, e), n = item.find_anchor(ticks[0], _occ(words))
+            try:
+                (a, e), n = item.find_anchor(ticks[0], _occ(words))
+            except ExtractError:
+                if "optional" in words:     # (a normalisation of text that need not be there)
+                    i += 1
+                    continue
+                raise
             if "all" in words:
                 # replace every occurrence, last first
                 cnt = n
@@ -644,7 +650,10 @@ def _name_result(item, rname):
     # the `->` of the signature: the last top-level `->` before the body (closure types live inside brackets)
     depth = 0
     k = f.start()
-    while k < b:
+    # (a `where` clause may itself contain `->`, e.g. `F: Fn(&str) -> bool`: the signature's arrow comes before it)
+    w0 = re.compile(r"\bwhere\b").search(mt, f.start(), b)
+    stop = w0.start() if w0 else b
+    while k < stop:
         ch = mt[k]
         if ch in "([":
             depth += 1
